@@ -145,6 +145,7 @@ def run(ctx: vf.Ctx):
     for js, r in zip(jobs, res):
         judge(ctx, js, r, 'supporting search')
     ctx.cov['compile_jobs'] = len(jobs)
+    ctx.cov['compile_runner'] = getattr(W.run_jobs, 'last_info', None)
     ctx.cov['compile_jobs_finished'] = sum(1 for r in res if r.get('ok'))
     ctx.cov['compile_seconds'] = [r.get('secs') for r in res if r.get('ok')]
 
